@@ -3,15 +3,17 @@ write audit/seed_regression.txt:   python -m harness.seed_regress [C07 C12 ...]"
 import json, subprocess, sys, time
 from pathlib import Path
 
+HOME = str(Path(__file__).resolve().parent.parent)     # the /verif this module belongs to (a `vp run` snapshot has its own)
+
 def main():
     only = set(sys.argv[1:])
     rows = []
-    for d in sorted(Path('/verif/seeded').glob('C*-*')):
+    for d in sorted(Path(HOME + '/seeded').glob('C*-*')):
         prop = d.name.split('-')[0]
         if only and prop not in only:
             continue
         t0 = time.time()
-        r = subprocess.run(['/venv/bin/python', '-m', 'harness.seed_test', str(d), prop], capture_output=True, text=True, cwd='/verif', timeout=3600)
+        r = subprocess.run(['/venv/bin/python', '-m', 'harness.seed_test', str(d), prop], capture_output=True, text=True, cwd=HOME, timeout=3600)
         out = r.stdout
         line = next((l for l in out.splitlines() if l.startswith(prop + ' {')), '')
         try:
@@ -24,9 +26,9 @@ def main():
                     f"{'concrete' if concrete else 'tie-only'} {int(time.time() - t0):4d}s  {', '.join(concrete[:3])}")
         print(rows[-1], flush=True)
     head = subprocess.run(['git', '-C', '/repo', 'rev-parse', '--short', 'HEAD'], capture_output=True, text=True).stdout.strip()
-    vh = subprocess.run(['git', '-C', '/verif', 'rev-parse', '--short', 'HEAD'], capture_output=True, text=True).stdout.strip()
+    vh = subprocess.run(['git', '-C', HOME, 'rev-parse', '--short', 'HEAD'], capture_output=True, text=True).stdout.strip()
     if not only:
-        Path('/verif/audit/seed_regression.txt').write_text(f'# every kept seed against the check of its property; repo {head}, verif {vh}\n' + '\n'.join(rows) + '\n')
+        Path(HOME + '/audit/seed_regression.txt').write_text(f'# every kept seed against the check of its property; repo {head}, verif {vh}\n' + '\n'.join(rows) + '\n')
     return 0
 
 if __name__ == '__main__':
